@@ -26,6 +26,8 @@ PROPAGATING = {
     'std::option::Option::<T>::map', 'std::option::Option::<T>::and_then',
     'std::option::Option::<T>::filter', 'std::option::Option::<T>::or_else',
     'std::option::Option::<T>::map_or_else',
+    'std::option::Option::<&T>::cloned', 'std::option::Option::<&T>::copied', 'std::option::Option::<T>::as_ref',
+    'std::option::Option::<T>::as_deref', 'std::option::Option::<T>::zip', 'std::option::Option::<T>::inspect',
 }
 DISCARDING = {
     'std::result::Result::<T, E>::ok', 'std::result::Result::<T, E>::err',
